@@ -460,6 +460,10 @@ def build_ops(ck, fresh_ser, fresh_enc):
     add("find_types:Leaf", (), kind="call", name="find_types", args=["Leaf"])
     add("find_subclass:Base,Der2", (), kind="call", name="find_subclass", args=[6, "{urn:h2}Der2"])
     add("find_subclass:Der,LateDer", (), kind="call", name="find_subclass", args=[7, "{urn:h}LateDer"])
+    add("find_subclass:Der,Base", (), kind="call", name="find_subclass", args=[7, "{urn:h}Base"])
+    add("find_subclass:Der,Der2", (), kind="call", name="find_subclass", args=[7, "{urn:h2}Der2"])
+    add("fetch:Der,xsi=Base", (), kind="call", name="fetch", args=[7, "urn:h", "{urn:h}Base"])
+    add("fetch:Leaf,xsi=nosuch", (), kind="call", name="fetch", args=[1, None, "{urn:none}Nobody"])
     add("build:Leaf,urn:q", (), kind="call", name="build", args=[1, "urn:q"])
     add("build:Leaf,None", (), kind="call", name="build", args=[1, None])
     add("build:Broken", (), kind="call", name="build", args=[14, None])
@@ -698,31 +702,60 @@ def run(ck: Check):
     for i, o in enumerate(ops):
         defs.append(f"Definition op_{i} : op := {c_op(o)}.")
     rint, tint = Interner("r_", "res"), Interner("t_", "list otev")
-    cases, calls, unexpected_mod = [], 0, 0
-    for seq, run_ in zip(seqs, res["runs"]):
-        steps = []
-        for st, out in zip(seq, run_):
-            if "env" in st:
-                if st["env"] == "define":
-                    steps.append(f"StEnv (EDefine cd_{st['cid']} {cbool(st['bump'])})")
-                else:
-                    steps.append("StEnv EImport")
-                continue
-            calls += 1
-            ordered = ops[st["op"]]["kind"] not in ("dec", "jparse")
-            steps.append(f"StOp op_{st['op']} {cbool(ordered)} {rint(c_res(out['shared']))} {rint(c_res(out['fresh']))} "
-                         f"{tint(c_otrace(out['ts']))} {tint(c_otrace(out['tf']))}")
-            delta = out["mod"][1] - out["mod"][0]
-            if delta:
-                # a lazy import moved len(sys.modules) during the call: tell the model
-                unexpected_mod += 1
-                steps += ["StEnv EImport"] * max(delta, 0)
-        cases.append(f"(W0, {clist(steps, str, 'step')})")
-    alldefs = "\n".join(defs + rint.defs + tint.defs)
+
+    def build_cases(seqs_, runs_):
+        cases_, calls_, unexpected = [], 0, 0
+        for seq, run_ in zip(seqs_, runs_):
+            steps = []
+            for st, out in zip(seq, run_):
+                if "env" in st:
+                    if st["env"] == "define":
+                        steps.append(f"StEnv (EDefine cd_{st['cid']} {cbool(st['bump'])})")
+                    else:
+                        steps.append("StEnv EImport")
+                    continue
+                calls_ += 1
+                ordered = ops[st["op"]]["kind"] not in ("dec", "jparse")
+                steps.append(f"StOp op_{st['op']} {cbool(ordered)} {rint(c_res(out['shared']))} {rint(c_res(out['fresh']))} "
+                             f"{tint(c_otrace(out['ts']))} {tint(c_otrace(out['tf']))}")
+                delta = out["mod"][1] - out["mod"][0]
+                if delta:
+                    # a lazy import moved len(sys.modules) during the call: tell the model
+                    unexpected += 1
+                    steps += ["StEnv EImport"] * max(delta, 0)
+            cases_.append(f"(W0, {clist(steps, str, 'step')})")
+        return cases_, calls_, unexpected
+
+    def all_defs():
+        return "\n".join(defs + rint.defs + tint.defs)
+
+    cases, calls, unexpected_mod = build_cases(seqs, res["runs"])
+    alldefs = all_defs()
     t_terms = time.time()
     summ = coq_summaries("c14", alldefs, cases)
     ck.notes.append(f"timing: pass1 done at {t_p1 - ck.t0:.0f}s, pass2 at {t_p2 - ck.t0:.0f}s, terms at {t_terms - ck.t0:.0f}s, "
                     f"coq at {time.time() - ck.t0:.0f}s; {len(rint.ids)} distinct results, {len(tint.ids)} distinct access logs")
+
+    def shrink(seq, bad):
+        """Delta debugging by single-step removal: `bad(summary)` must stay true.
+        Returns (sequence, its run, its summary)."""
+        cur, cur_run, cur_sum = seq, None, None
+        for _ in range(12):
+            cands = []
+            for k in range(len(cur)):
+                c = cur[:k] + cur[k + 1:]
+                if c and "op" in c[-1] and valid(c, ops):
+                    cands.append(c)
+            if not cands:
+                break
+            r2 = run_impl("impl_c14.py", impl_payload(ops, cands), timeout=600)
+            cs, _, _ = build_cases(cands, r2["runs"])
+            sm = coq_summaries("c14s", all_defs(), cs)
+            hit = [k for k, v in enumerate(sm) if bad(v)]
+            if not hit:
+                break
+            cur, cur_run, cur_sum = cands[hit[0]], r2["runs"][hit[0]], sm[hit[0]]
+        return cur, cur_run, cur_sum
 
     # ---- verdicts
     ck.cov["evaluations"] = calls
@@ -730,16 +763,30 @@ def run(ck: Check):
              "guarded_and_differing": 0, "by_class": {v: 0 for v in CLASSES.values()}}
     distinct = set()
 
-    def replay(i):
+    def replay(i, seq=None, run_=None, sm=None):
         steps = []
-        for st, out in zip(seqs[i], res["runs"][i]):
+        for st, out in zip(seq or seqs[i], run_ or res["runs"][i]):
             if "env" in st:
                 steps.append(st)
             else:
                 o = ops[st["op"]]
                 steps.append({"op": o["tag"], "shared": out["shared"], "fresh": out["fresh"],
                               "accesses_shared": out["ts"], "accesses_fresh": out["tf"]})
-        return {"sequence": steps, "summary": summ[i]}
+        return {"sequence": steps, "summary": summ[i] if sm is None else sm}
+
+    shrunk = set()
+
+    def small_replay(i, cls, bad):
+        """the replay of case i; the first one of a violation class is minimised"""
+        if cls in shrunk or cls in ck.open_classes() or len(seqs[i]) <= 2:
+            return replay(i)
+        shrunk.add(cls)
+        seq, run_, sm = shrink(seqs[i], bad)
+        if run_ is None:
+            return replay(i)
+        rp = replay(i, seq, run_, sm)
+        rp["shrunk_from"] = len(seqs[i])
+        return rp
 
     order_idx = sorted(range(len(seqs)), key=lambda i: len(seqs[i]))   # smallest replay first
     for i in order_idx:
@@ -747,10 +794,14 @@ def run(ck: Check):
         distinct.add(tuple(st.get("op", -1 - st.get("cid", 0)) for st in seqs[i]))
         tags = " ; ".join(ops[st["op"]]["tag"] if "op" in st else f"<{st['env']} {st.get('cid', '')}>" for st in seqs[i])
         if not s & 1:
-            rp = replay(i)
+            if s & 8 and not s & 4:
+                ck.failure("history-dependence-unexplained",
+                           f"a call differs from fresh instances and no modelled defect deviates in it: {tags}",
+                           small_replay(i, "history-dependence-unexplained", lambda v: v & 8 and not v & 4))
             if not any(v[0] == "corr-context" for v in ck.violations):
-                rp["per_call"] = coq_summaries("c14d", alldefs, [cases[i]], fn="case_diag")   # 0 ok, 1 result, 2 access log
-            ck.failure("corr-context", f"model and implementation disagree (result or logged context access) on: {tags}", rp)
+                rp = small_replay(i, "corr-context", lambda v: not v & 1)
+                ck.failure("corr-context", "model and implementation disagree (result or logged context access) on: "
+                           + " ; ".join(str(x.get("op", x)) for x in rp["sequence"]), rp)
             continue
         if s & 16:
             stats["guarded_sequences"] += 1
@@ -760,11 +811,12 @@ def run(ck: Check):
             stats["guarded_and_differing"] += 1
             ck.failure("history-dependence-inside-guard",
                        f"a call differs from fresh instances although the history satisfies the guard of the theorem: {tags}",
-                       replay(i))
+                       small_replay(i, "history-dependence-inside-guard", lambda v: not v & 2))
             continue
         if not s & 4:
             ck.failure("history-dependence-unexplained",
-                       f"a call differs from fresh instances and no modelled defect deviates in it: {tags}", replay(i))
+                       f"a call differs from fresh instances and no modelled defect deviates in it: {tags}",
+                       small_replay(i, "history-dependence-unexplained", lambda v: not v & 4))
             continue
         if s & 8:
             for bit, cls in CLASSES.items():
